@@ -26,7 +26,10 @@ RULE = (
     "entry set (injectivity); from_list(as_list()) and the with_meta variant are the identity on the "
     "serialised projection; Tree.load after odb.add returns the same listing and the stored bytes are the "
     "reference bytes; for every directory prefix get_obj == reference object of the re-rooted entries and "
-    "filter keeps exactly the keys below it; file / absent prefixes behave as documented. "
+    "filter keeps exactly the keys below it; file / absent prefixes behave as documented. HIST: a history on ONE "
+    "Tree instance - drawn trie-backed reads (get_obj, filter, iteritems, as_trie, ls, shortest_prefix) interleaved "
+    "with Tree.add overwriting existing keys with new hashes, adds of new keys and re-digests; after every step "
+    "as_bytes/digest == reference of a model dict and every drawn read agrees with the model. "
     "FS: a generated tree materialised twice in two drawn creation orders (second copy on tmpfs or on the "
     "disk temp dir), staged with build() under checksum_jobs in {None,1,2,8}, state none / cold+warm, optionally "
     "with the State already holding rows for the same unchanged files from a build / _get_hashes run under the "
@@ -36,6 +39,7 @@ RULE = (
     "jobs, drawn per-file delays so the unordered pool really completes out of order). Oracle: every oid == "
     "ref_tree_oid(hashlib manifest), staged listing bytes == reference bytes, _get_hashes maps each path to "
     "its own hashlib digest. Non-trivial: pure = >=3 entries, >=1 nested key, permutation != identity; "
+    "hist = nested keys and a read, then an overwrite of an existing key with another hash, then a prefix-based read; "
     "fs = >=2 files and (>=2 files hashed on pool threads in one phase, or a warm build served entirely from "
     "the state, or a State pre-warmed under another algorithm). Distinct = SHA-1 of the case JSON."
 )
@@ -132,6 +136,31 @@ def pure_cases(draw):
                 "i": draw(st.integers(0, 11)), "j": draw(st.integers(0, 11)),
                 "name": draw(PN), "oid": draw(st.sampled_from(XOIDS))},
         "absent": draw(st.lists(PN, min_size=1, max_size=2)),
+    }
+
+
+READS = ["get_obj", "filter", "iteritems", "as_trie", "ls", "shortest_prefix"]
+HSTEP = st.fixed_dictionaries({
+    "op": st.sampled_from(["overwrite", "overwrite", "overwrite", "new", "none"]),
+    "i": st.integers(0, 11),
+    "oid": st.sampled_from(XOIDS),
+    "name": PN,
+    "digest": st.booleans(),
+    "p": st.integers(0, 7),
+    "reads": st.lists(st.sampled_from(READS), min_size=0, max_size=3, unique=True),
+})
+
+
+@st.composite
+def hist_cases(draw):
+    """A history on ONE Tree instance: trie-backed reads interleaved with adds that overwrite existing keys."""
+    return {
+        "kind": "hist",
+        "algo": draw(st.sampled_from(HNAMES)),
+        "keys": draw(PKEYS),
+        "oids": draw(st.lists(st.sampled_from(XOIDS), min_size=1, max_size=6)),
+        "first_reads": draw(st.lists(st.sampled_from(READS), max_size=2, unique=True)),
+        "steps": draw(st.lists(HSTEP, min_size=1, max_size=8)),
     }
 
 
@@ -378,6 +407,100 @@ def _run_pure(case, Tree):  # noqa: N803
 
 
 # ------------------------------------------------------------------------------------------
+# pure half, histories on one Tree instance
+# ------------------------------------------------------------------------------------------
+def check_reads(t, odb, model, algo, reads, pidx, kidx, viols, where):
+    """Compare the trie-backed read methods of the live tree with the model dict {key: oid}."""
+    from dvc_data.hashfile.tree import Tree
+
+    prefixes = sorted({k[:d] for k in model for d in range(1, len(k))})
+    p = prefixes[pidx % len(prefixes)] if prefixes else ()
+    below = {k: v for k, v in model.items() if k[:len(p)] == p}
+    for m in reads:
+        if m == "get_obj":
+            obj = t.get_obj(odb, p)
+            want = joined({k[len(p):]: v for k, v in below.items()})
+            if not isinstance(obj, Tree) or obj.as_bytes() != ref_bytes(want, algo):
+                viols.append(Viol("hist:get_obj", f"{where}: get_obj({p}) does not list the current entries below it"))
+            elif hkey(algo) == "md5" and obj.oid != ref_oid(want, algo):
+                viols.append(Viol("hist:get_obj-oid", f"{where}: get_obj({p}).oid != oid of the re-rooted entries"))
+        elif m == "filter":
+            got = {k: hi.value for k, _, hi in t.filter(p)}
+            if got != below:
+                viols.append(Viol("hist:filter", f"{where}: filter({p}) != current entries below it"))
+        elif m == "iteritems":
+            got = {k: hi.value for k, (_, hi) in (t.iteritems(p) if p else t.iteritems())}
+            if got != below:
+                viols.append(Viol("hist:iteritems", f"{where}: iteritems({p}) != current entries below it"))
+        elif m == "as_trie":
+            got = {k: hi.value for k, (_, hi) in t.as_trie().iteritems()}
+            if got != model:
+                viols.append(Viol("hist:as_trie", f"{where}: as_trie() != current entries"))
+        elif m == "ls" and p:
+            want = sorted({k[len(p)] for k in below if len(k) > len(p)})
+            if sorted(t.ls(p)) != want:
+                viols.append(Viol("hist:ls", f"{where}: ls({p}) = {sorted(t.ls(p))}, children are {want}"))
+        elif m == "shortest_prefix":
+            keys = sorted(model)
+            k = keys[kidx % len(keys)]
+            step = t.shortest_prefix(k)
+            if not step or step.key != k or step.value[1].value != model[k]:
+                viols.append(Viol("hist:shortest_prefix", f"{where}: shortest_prefix({k}) is not the current entry"))
+
+
+def run_hist(case, ctx):
+    from dvc_data.hashfile.hash_info import HashInfo
+    from dvc_data.hashfile.meta import Meta
+
+    reset_globals()
+    try:
+        algo = case["algo"]
+        model = entries_of(case)
+        t = mk_tree(model, sorted(model), [{}], algo)
+        odb = ops.make_odb("mem", "/odb", hash_name=algo)
+        viols, classes = [], [f"hist:algo={algo}"]
+        check_reads(t, odb, model, algo, case["first_reads"], 0, 0, viols, "initially")
+        read_before = bool(case["first_reads"])
+        stale_window = False  # an overwrite happened after the trie had been materialised
+        judged_after_overwrite = False
+        for n, st_ in enumerate(case["steps"]):
+            keys = sorted(model)
+            k = keys[st_["i"] % len(keys)]
+            if st_["op"] == "overwrite":
+                if model[k] != st_["oid"] and read_before:
+                    stale_window = True
+                model[k] = st_["oid"]
+                t.add(k, Meta(size=n), HashInfo(algo, st_["oid"]))
+                classes.append("hist:overwrite")
+            elif st_["op"] == "new":
+                nk = (*k[:-1], st_["name"])
+                if not any(nk[:len(o)] == o or o[:len(nk)] == nk for o in model if o != nk):
+                    model[nk] = st_["oid"]
+                    t.add(nk, Meta(size=n), HashInfo(algo, st_["oid"]))
+                    classes.append("hist:add-new")
+            where = f"after step {n} ({st_['op']})"
+            if t.as_bytes() != ref_bytes(joined(model), algo):
+                viols.append(Viol("hist:bytes", f"{where}: as_bytes != reference of the current entries"))
+            if st_["digest"]:
+                t.digest(name=algo)
+                if t.oid != ref_oid(joined(model), algo):
+                    viols.append(Viol("hist:oid", f"{where}: digest {t.oid} != reference"))
+            check_reads(t, odb, model, algo, st_["reads"], st_["p"], st_["i"] + n, viols, where)
+            if st_["reads"]:
+                read_before = True
+                if stale_window and set(st_["reads"]) - {"shortest_prefix"}:
+                    judged_after_overwrite = True
+            if viols:
+                break
+        nested = any(len(k) > 1 for k in model)
+        if judged_after_overwrite:
+            classes.append("hist:read-overwrite-read")
+        return Result(viols, nested and judged_after_overwrite, sorted(set(classes)))
+    finally:
+        reset_globals()
+
+
+# ------------------------------------------------------------------------------------------
 # filesystem half
 # ------------------------------------------------------------------------------------------
 class HashSpy:
@@ -600,6 +723,8 @@ def run_fs(case, ctx):
 def run_case(case, ctx):
     if case["kind"] == "pure":
         return run_pure(case, ctx)
+    if case["kind"] == "hist":
+        return run_hist(case, ctx)
     return run_fs(case, ctx)
 
 
@@ -607,7 +732,8 @@ def run(ctx):
     # the filesystem half goes first: it is the smaller one and must not be starved by the budget
     if ctx.run_given(fs_cases(thorough=ctx.tier == "thorough"), run_case,
                      ctx.n(quick=100, thorough=1500)):
-        ctx.run_given(pure_cases(), run_case, ctx.n(quick=500, thorough=20000))
+        if ctx.run_given(pure_cases(), run_case, ctx.n(quick=450, thorough=16000)):
+            ctx.run_given(hist_cases(), run_case, ctx.n(quick=250, thorough=8000))
 
 
 def replay(case, ctx):
